@@ -1088,16 +1088,19 @@ impl Parser {
                                 self.advance();
 
                                 let meta = join_meta(meta, meta_end);
+                                let range_end = if is_inclusive {
+                                    Some(range_end)
+                                } else {
+                                    range_end.checked_sub(1)
+                                };
+                                let Some(range_end) = range_end else {
+                                    // an exclusive range cannot end at the smallest number
+                                    let e = ParseErrorEnum::InvalidRangeExpr;
+                                    self.errors.push(ParseError(e, meta));
+                                    return Err(());
+                                };
                                 Ok(Pattern::untyped(
-                                    PatternEnum::UnsignedInclusiveRange(
-                                        n,
-                                        if is_inclusive {
-                                            range_end
-                                        } else {
-                                            range_end - 1
-                                        },
-                                        type_suffix,
-                                    ),
+                                    PatternEnum::UnsignedInclusiveRange(n, range_end, type_suffix),
                                     meta,
                                 ))
                             } else {
@@ -1134,16 +1137,19 @@ impl Parser {
                                 self.advance();
 
                                 let meta = join_meta(meta, meta_end);
+                                let range_end = if is_inclusive {
+                                    Some(range_end)
+                                } else {
+                                    range_end.checked_sub(1)
+                                };
+                                let Some(range_end) = range_end else {
+                                    // an exclusive range cannot end at the smallest number
+                                    let e = ParseErrorEnum::InvalidRangeExpr;
+                                    self.errors.push(ParseError(e, meta));
+                                    return Err(());
+                                };
                                 Ok(Pattern::untyped(
-                                    PatternEnum::SignedInclusiveRange(
-                                        n,
-                                        if is_inclusive {
-                                            range_end
-                                        } else {
-                                            range_end - 1
-                                        },
-                                        type_suffix,
-                                    ),
+                                    PatternEnum::SignedInclusiveRange(n, range_end, type_suffix),
                                     meta,
                                 ))
                             } else {
